@@ -198,12 +198,13 @@ def r3(ctx, F, rule, sfx):
     ctx.check(rule, 'differences-fit-i64' + sfx, ok, 'components in [0, %d]; differences in [-%d, %d]' % (hi, hi, hi), '|difference| < 2^63', where(ib), key_extra='interval')
     # the subtraction operands are exactly the slice elements (no scaling before conversion)
     b, ipx, v = exact_form(ctx, F)
-    subs = 0
-    for bl in b['blocks']:
-        for s in bl['stmts']:
-            if s['k'] == 'assign' and s['rv']['k'] == 'binop' and s['rv']['op'].startswith('Sub') and s['rv'].get('lty') == 'i64':
-                subs += 1
-    ctx.check(rule, 'i64-subtractions-counted' + sfx, subs == 12, '%d i64 subtractions' % subs, '12 (three per relative point)', where(b), key_extra='subs')
+    def n_subs(body):
+        return sum(1 for bl in body['blocks'] for s in bl['stmts'] if s['k'] == 'assign' and s['rv']['k'] == 'binop' and s['rv']['op'].startswith('Sub') and s['rv'].get('lty') == 'i64')
+    subs = n_subs(b)
+    helpers = private_helpers_of(F, b)
+    for hp, ncalls in helpers.items():
+        subs += n_subs(F.by_path[hp][0]) * ncalls         # an extracted helper (e.g. the relative-point macro as a function) counts once per call
+    ctx.check(rule, 'i64-subtractions-counted' + sfx, subs == 12, '%d i64 subtractions%s' % (subs, (' (incl. helpers %s)' % sorted(strip_generics(h) for h in helpers)) if helpers else ''), '12 (three per relative point)', where(b), key_extra='subs')
 
 
 def r4(ctx, F, rule, sfx):
